@@ -665,7 +665,7 @@ STRATS = {
 PLAN = {
     "identity_eq": (1, 2500), "identity_ecl": (1, 2500),
     "roundtrip_eq": (3, 2500), "roundtrip_ecl": (2, 2500),
-    "rigid_eq": (2, 2000), "rigid_ecl": (2, 2000),
+    "rigid_eq": (4, 1000), "rigid_ecl": (4, 1000),
     "route": (3, 2500), "newcomb": (2, 2500),
     "pm_eq": (2, 2000), "pm_ecl": (1, 2000), "pm_newcomb": (1, 2000),
     "pm_space": (1, 1500), "pm_convert": (1, 1500),
